@@ -103,7 +103,7 @@ impl Prop for C11 {
             .to_string()
     }
     fn n_cases(&self, tier: Tier) -> u64 {
-        tier.pick(1500, 15000)
+        tier.pick(10000, 100000)
     }
     fn timeout_s(&self, tier: Tier) -> u64 {
         tier.pick(90, 180)
